@@ -2,12 +2,13 @@
 # usage: tools/replay_selftest.sh   (PROPS="06 11" to restrict); scratch copies under /var/tmp are removed afterwards
 # for each property: one mutant, produce a replay file, replay it on the mutated tree (expect rc 1) and on the clean tree (expect rc 0)
 cd "$(dirname "$0")/.."
+HERE=$(pwd)
 for p in ${PROPS:-01 02 03 04 05 06 07 08 09 10 11 12 13 14 15 16 17 18 19 20}; do
   pid=C$p
   patch=$(ls selftest/mutants/c${p}_*.patch | head -1)
   d=/var/tmp/rt_$pid; rm -rf $d; mkdir -p $d
   rsync -a --exclude .git --exclude __pycache__ /repo/ $d/repo/
-  (cd $d/repo && patch -p1 -s -i $(pwd)/$patch) || { echo "$pid patch failed"; continue; }
+  (cd $d/repo && patch -p1 -s -i $HERE/$patch) || { echo "$pid patch failed"; continue; }
   VERIF_REPO_ROOT=$d/repo VERIF_EVIDENCE_DIR=$d/ev VERIF_REPLAY_DIR=$d/rp ./check $pid > $d/out.txt 2>&1
   rp=$(grep -o "replay=.*" $d/out.txt | head -1 | cut -d= -f2)
   if [ -z "$rp" ]; then echo "$pid: no replay produced ($(tail -1 $d/out.txt | cut -c1-100))"; rm -rf $d; continue; fi
